@@ -2,5 +2,6 @@ SPECIFICATION Spec
 INVARIANT ModelRows
 INVARIANT ModelZero
 INVARIANT PointRows
+INVARIANT PointScale
 INVARIANT QueryShape
 CHECK_DEADLOCK FALSE
